@@ -760,15 +760,13 @@ func (r *scenRun) lateCollector(inj *Inject) (*node, error) {
 // countPools calls CollectorPool.Count() (the call /repo/fractal.go makes every minute) on every pool that was
 // not stopped; it is a judged client call like any other.
 func (r *scenRun) countPools() {
-	if !r.topDead {
-		r.call("count", Ev{N: "top", X: "CollectorPool"}, true, func() { r.topPool.Count() })
-	}
+	r.call("count", Ev{N: "top", X: "CollectorPool"}, true, func() { r.topPool.Count() })
 	for _, name := range r.names() {
 		if r.isAborted() {
 			return
 		}
 		n := r.node(name)
-		if n.relay && n.pool != nil && n.stopPool != nil && !n.dead {
+		if n.relay && n.pool != nil {
 			r.call("count", Ev{N: name, X: "CollectorPool"}, true, func() { n.pool.Count() })
 		}
 	}
@@ -827,6 +825,9 @@ func (r *scenRun) inject(inj *Inject, expected []*node) []*node {
 		if victim == nil {
 			victim = pick(remotes)
 		}
+		if victim == nil && len(relays) > 0 {
+			victim = relays[inj.Sel%len(relays)]
+		}
 		if victim == nil {
 			return expected
 		}
@@ -836,6 +837,9 @@ func (r *scenRun) inject(inj *Inject, expected []*node) []*node {
 	case "drop":
 		if victim == nil {
 			victim = pick(remotes)
+		}
+		if victim == nil && len(relays) > 0 {
+			victim = relays[inj.Sel%len(relays)]
 		}
 		if victim == nil {
 			return expected
@@ -901,7 +905,7 @@ func (r *scenRun) inject(inj *Inject, expected []*node) []*node {
 		r.linksDown("sup")
 		r.call("stop", Ev{N: "top", X: "LocalSuperior.Release"}, true, r.ls.Release)
 	}
-	if inj.Kind == "drop" || inj.Kind == "stop-prs" || inj.Kind == "stop-lc" {
+	if (inj.Kind == "drop" || inj.Kind == "stop-prs" || inj.Kind == "stop-lc" || inj.Kind == "stop-pool") && !r.isAborted() {
 		time.Sleep(150 * time.Millisecond) // let the pool side notice
 		r.countPools()
 	}
